@@ -159,3 +159,10 @@ func (cs *ConsensusState) VerifStopWALTickers() {
 		cs.wal.group.VerifStopTickers()
 	}
 }
+
+// VerifNumRounds returns how many rounds the height vote set tracks (each costs two vote sets).
+func (hvs *HeightVoteSet) VerifNumRounds() int {
+	hvs.mtx.Lock()
+	defer hvs.mtx.Unlock()
+	return len(hvs.roundVoteSets)
+}
